@@ -4,16 +4,20 @@ import re
 
 from harness.core import pool, tb
 from harness.gen import systems
+from harness.props import _shared
 
-PROOF_MODULE = ["OdeVerif.Proofs.C03", "OdeVerif.Proofs.ReachSpec", "OdeVerif.Proofs.RefineGraph", "OdeVerif.Proofs.PipelineGraph", "OdeVerif.Proofs.RefineDemote", "OdeVerif.Proofs.RefinePartition"]
-GENERATED = ["PyGraph", "PyDemote", "PyPartition"]
+PROOF_MODULE = ["OdeVerif.Proofs.C03", "OdeVerif.Proofs.ReachSpec", "OdeVerif.Proofs.RefineGraph", "OdeVerif.Proofs.PipelineGraph", "OdeVerif.Proofs.RefineDemote", "OdeVerif.Proofs.RefinePartition", "OdeVerif.Proofs.RefineGlue"]
+GENERATED = ["PyGraph", "PyDemote", "PyPartition", "PyGlue", "PyInitialValues"]
 THEOREMS = ["OdeVerif.C03.propagate_terminates", "OdeVerif.C03.verdict_total", "OdeVerif.C03.propagate_below", "OdeVerif.C03.propagate_closed",
             "OdeVerif.C03.propagate_greatest", "OdeVerif.C03.analytic_sound", "OdeVerif.C03.analytic_closed",
             "OdeVerif.C03.tractable_recognised", "OdeVerif.ReachSpec.graph_reach_iff", "OdeVerif.ReachSpec.sccSize_spec", "OdeVerif.C03.partition_exact_cover", "OdeVerif.C03.verdict_perm_invariant",
             "OdeVerif.Refine.dependencyEdges_spec", "OdeVerif.Refine.mem_dependencyEdges", "OdeVerif.Refine.propagate_refines", "OdeVerif.Refine.verdict_refines",
             "OdeVerif.PipelineSpec.analyse_verdict_some", "OdeVerif.PipelineSpec.analyse_partition", "OdeVerif.PipelineSpec.analyse_analytic_closed", "OdeVerif.PipelineSpec.analyse_analytic_linear",
             "OdeVerif.Refine.demote_refines", "OdeVerif.Refine.demote_above", "OdeVerif.Refine.demote_eligible", "OdeVerif.Refine.findAnalytic_refines", "OdeVerif.Refine.findAnalytic_total",
-            "OdeVerif.Refine.solverPartition_requests", "OdeVerif.Refine.solverPartition_disabled"]
+            "OdeVerif.Refine.solverPartition_requests", "OdeVerif.Refine.solverPartition_disabled",
+            "OdeVerif.Refine.getLinCcSymbols_lookup", "OdeVerif.Refine.getLinCcSymbols_of_distinct", "OdeVerif.Refine.findInMatrix_refines", "OdeVerif.Refine.findPos_some",
+            "OdeVerif.Refine.findPos_none_iff", "OdeVerif.Refine.findPos_column_distinct", "OdeVerif.Refine.shapeOrderFromSystemMatrix_refines",
+            "OdeVerif.Refine.getConnectedSymbols_refines", "OdeVerif.Refine.self_mem_getConnectedSymbols", "OdeVerif.Refine.shapeOrder_eq_length_connected"]
 LEVEL = "proof"
 
 
@@ -156,6 +160,7 @@ def run(ctx, driver):
     ctx.sample({"indict": cases[-1]["indict"], "shape": cases[-1].get("shape"),
                 "verdict": dict(zip(results[-1].get("x", []), results[-1].get("verdict2", []))) if isinstance(results[-1], dict) else None})
     check_graph_correspondence(ctx, driver, cases, results)
+    _shared.corr_glue(ctx, driver, cases, results, parts=("lin",))
     ctx.assumptions += [
         "SymPy contracts: _is_zero (expand_mul(x).is_zero) true only for zero; free_symbols exact; scipy connected_components(connection='strong') = SCCs (compared with the model's own closure on every case)",
         "the linear-constant-coefficient judgement of a shape (shapeLin) is an input of the graph model; its own soundness is the split theorem of C02/C04",
